@@ -174,6 +174,9 @@ std::string op_print(const Op &o)
         case OP_QAPI:
                 s << "qapi " << o.a;
                 break;
+        case OP_PUMP:
+                s << "pump " << o.a << " " << o.b << " " << o.c << " " << o.d;
+                break;
         }
         if (o.thr)
                 return "@" + std::to_string(o.thr) + " " + s.str() + " ~" + std::to_string(o.c); // ~n: yields before the call
@@ -435,6 +438,9 @@ bool plan_parse(const std::string &text, Plan &p, std::string &err)
                         } else if (w == "qapi") {
                                 o.kind = OP_QAPI;
                                 ls >> o.a;
+                        } else if (w == "pump") {
+                                o.kind = OP_PUMP;
+                                ls >> o.a >> o.b >> o.c >> o.d;
                         } else
                                 return fail("unknown op");
                 } catch (...) {
@@ -594,6 +600,10 @@ bool plan_valid(const Plan &p, std::string &why)
                                 return bad("flag flip on an event source");
                         if (o.a == 1 && (o.b < 0 || o.b >= (int64_t)p.groups.size()))
                                 return bad("flag group");
+                        break;
+                case OP_PUMP:
+                        if (o.a < 0 || o.a >= (int64_t)p.cmds.size() || (o.b != CT_READ && o.b != CT_TEST) || o.c < 0 || o.c > 200000 || o.d < 1 || o.d > 16)
+                                return bad("pump op");
                         break;
                 case OP_ROUNDTRIP:
                         if (o.a < 0 || o.a >= (int64_t)p.cmds.size())
